@@ -61,7 +61,8 @@ inductive Clause where
   | ports (d : Dir) (neg : Bool) (rs : List PortRange)
   /-- `ICMPType`/`ICMPTypeAndCode`/`ICMPV6…` and their `Not…` forms. -/
   | icmp (v6 : Bool) (neg : Bool) (type : Nat) (code : Option Nat)
-  | ctState (neg : Bool) (states : String)
+  /-- `ConntrackState("A,B")`: the comma separated state list, kept as a list -/
+  | ctState (neg : Bool) (states : List String)
   | limit (rate : String) (burst : Nat)
   deriving DecidableEq, Repr, Inhabited
 
@@ -144,7 +145,7 @@ def Clause.toIpt : Clause → Option String
   | .icmp v6 neg t c =>
       let tc := match c with | some c => s!"{t}/{c}" | Option.none => toString t
       if v6 then some s!"-m icmp6 {bang neg}--icmpv6-type {tc}" else some s!"-m icmp {bang neg}--icmp-type {tc}"
-  | .ctState neg s => some s!"-m conntrack {bang neg}--ctstate {s}"
+  | .ctState neg s => some s!"-m conntrack {bang neg}--ctstate {",".intercalate s}"
   | .limit r b => if b = 0 then some s!"-m limit --limit {r}" else some s!"-m limit --limit {r} --limit-burst {b}"
 
 def optAll : List (Option String) → Option (List String)
@@ -233,7 +234,7 @@ def Clause.toNft (ipv : String) (st : NftProtoState) : Clause → Option (NftPro
       match c with
       | Option.none => some (st, s!"{fam} type {cmpNft neg}{t}")
       | some c => some (st, s!"{fam} type {cmpNft neg}{t} code {cmpNft neg}{c}")
-  | .ctState neg s => some (st, s!"ct state {cmpNft neg}{s.toLower}")
+  | .ctState neg s => some (st, s!"ct state {cmpNft neg}{(",".intercalate s).toLower}")
   | .limit r b => if b > 0 then some (st, s!"limit rate {r} burst {b} packets") else some (st, s!"limit rate {r}")
 
 def clausesToNft (ipv : String) : NftProtoState → List Clause → Option (List String)
@@ -356,7 +357,7 @@ def Clause.matches (env : Env) (pkt : Packet) (mark : Mark) : Clause → Bool
       | .ipt, some c => isIcmp && xorb neg (pkt.icmpType == t && pkt.icmpCode == c)
       -- nft renders two payload comparisons, each negated on its own
       | .nft, some c => isIcmp && xorb neg (pkt.icmpType == t) && xorb neg (pkt.icmpCode == c)
-  | .ctState neg s => xorb neg ((s.splitOn ",").contains pkt.ctState)
+  | .ctState neg s => xorb neg (s.contains pkt.ctState)
   | .limit _ _ => env.limitPass
 
 def Rule.matches (env : Env) (pkt : Packet) (mark : Mark) (r : Rule) : Bool :=
